@@ -44,6 +44,9 @@ type c27Case struct {
 	Buf  int      `json:"buf"`
 	Pre  []c27Pre `json:"pre"`
 	Reqs []c27Req `json:"reqs"`
+	// Stall > 0 (C03 only): the driver leaves responses unread during every
+	// other window of Stall cycles.
+	Stall int `json:"stall,omitempty"`
 }
 
 func (c *c27Case) prePage(p c27Pre) vm.Page {
@@ -58,14 +61,21 @@ func (c *c27Case) prePage(p c27Pre) vm.Page {
 	return pg
 }
 
-func (c *c27Case) validate() error {
+func (c *c27Case) validate() error { return c.validateWith(false) }
+
+// validateWith(loose=true) additionally admits pre-inserted pages that share a
+// frame (the C03 domain).
+func (c *c27Case) validateWith(loose bool) error {
+	if c.Stall < 0 || (c.Stall != 0 && !loose) {
+		return fmt.Errorf("stall")
+	}
 	if c.Log2 < 12 || c.Log2 > 16 || c.Lat < 0 || c.Max < 1 || c.Buf < 1 || len(c.Reqs) == 0 {
 		return fmt.Errorf("params")
 	}
 	keys, frames := map[[2]uint64]bool{}, map[uint64]bool{}
 	for _, p := range c.Pre {
 		k := [2]uint64{uint64(p.PID), p.VPN}
-		if p.PID == 0 || keys[k] || frames[p.Frame] || p.Frame >= 1<<30 || p.VPN >= 1<<(63-c.Log2) {
+		if p.PID == 0 || keys[k] || (frames[p.Frame] && !loose) || p.Frame >= 1<<30 || p.VPN >= 1<<(63-c.Log2) {
 			return fmt.Errorf("pre %+v", p)
 		}
 		switch p.Odd {
@@ -113,6 +123,7 @@ type c27Driver struct {
 	rsps    []*c27Rsp
 	byReqID map[uint64]*c27Rsp
 	viols   []violation
+	maxOut  int
 }
 
 func (d *c27Driver) viol(sig, format string, a ...any) {
@@ -121,7 +132,11 @@ func (d *c27Driver) viol(sig, format string, a ...any) {
 
 func (d *c27Driver) Tick() bool {
 	progress := false
-	for {
+	stalled := false
+	if n := uint64(d.c.Stall); n > 0 && (uint64(d.eng.CurrentTime())/1000/n)%2 == 1 && d.port.NumIncoming() > 0 {
+		stalled, progress = true, true // keep ticking until the window ends
+	}
+	for !stalled {
 		m := d.port.RetrieveIncoming()
 		if m == nil {
 			break
@@ -163,6 +178,9 @@ func (d *c27Driver) Tick() bool {
 		d.port.Send(req)
 		rec := &c27Rsp{req: d.pc, tSent: d.eng.CurrentTime(), tRecv: tInf, tRsp: tInf}
 		d.out[req.ID] = d.pc
+		if len(d.out) > d.maxOut {
+			d.maxOut = len(d.out)
+		}
 		d.byReqID[req.ID] = rec
 		d.rsps = append(d.rsps, rec)
 		d.pc++
@@ -187,6 +205,28 @@ func execC27(c c27Case) (res c27Result) {
 	if err := c.validate(); err != nil {
 		return c27Result{Sig: "harness:invalid-case", Msg: err.Error()}
 	}
+	var sim *c27Sim
+	ok, sig, msg := kit.Guard(func() { sim = buildC27(&c) })
+	if !ok {
+		return c27Result{Sig: "build-" + sig, Msg: msg}
+	}
+	eng, pt, pre, m, d := sim.eng, sim.pt, sim.pre, sim.m, sim.d
+	return judgeC27(c, eng, pt, pre, m, d)
+}
+
+// c27Sim is the assembled C27 system: driver -> MMU (auto-allocation) over a
+// pre-populated page table.
+type c27Sim struct {
+	eng  *timing.SerialEngine
+	pt   vm.PageTable
+	pre  map[[2]uint64]vm.Page
+	m    *mmu.Comp
+	d    *c27Driver
+	conn *directconnection.Comp
+}
+
+func buildC27(cp *c27Case) *c27Sim {
+	c := *cp
 	timing.ResetIDGenerator()
 	eng := timing.NewSerialEngine()
 	reg := modeling.NewStandaloneRegistrar(eng)
@@ -200,7 +240,8 @@ func execC27(c c27Case) (res c27Result) {
 
 	var m *mmu.Comp
 	var d *c27Driver
-	ok, sig, msg := kit.Guard(func() {
+	var conn *directconnection.Comp
+	{
 		spec := mmu.DefaultSpec()
 		spec.Log2PageSize = c.Log2
 		spec.Latency = c.Lat
@@ -213,18 +254,15 @@ func execC27(c c27Case) (res c27Result) {
 				WithSpec(modeling.PortSpec{BufSize: c.Buf}).Build(name)
 			m.AssignPort(name, p)
 		}
-		d = &c27Driver{c: &c, eng: eng, out: map[uint64]int{}, byReqID: map[uint64]*c27Rsp{}}
+		d = &c27Driver{c: cp, eng: eng, out: map[uint64]int{}, byReqID: map[uint64]*c27Rsp{}}
 		d.TickingComponent = modeling.NewTickingComponent("Driver", eng, 1*timing.GHz, d)
 		d.port = messaging.NewPort(d, c.Buf, c.Buf, "Driver.Tr")
 		d.DeclarePort("Tr")
 		d.AssignPort("Tr", d.port)
 		d.dst = m.GetPortByName("Top").AsRemote()
-		conn := directconnection.MakeBuilder().WithRegistrar(reg).Build("Conn")
+		conn = directconnection.MakeBuilder().WithRegistrar(reg).Build("Conn")
 		conn.PlugIn(d.port)
 		conn.PlugIn(m.GetPortByName("Top"))
-	})
-	if !ok {
-		return c27Result{Sig: "build-" + sig, Msg: msg}
 	}
 	m.GetPortByName("Top").AcceptHook(&fnHook{func(ctx hooking.HookCtx) {
 		switch ctx.Pos {
@@ -243,8 +281,12 @@ func execC27(c c27Case) (res c27Result) {
 		}
 	}})
 
+	return &c27Sim{eng: eng, pt: pt, pre: pre, m: m, d: d, conn: conn}
+}
+
+func judgeC27(c c27Case, eng *timing.SerialEngine, pt vm.PageTable, pre map[[2]uint64]vm.Page, m *mmu.Comp, d *c27Driver) (res c27Result) {
 	d.TickLater()
-	ok, sig, msg = kit.Guard(func() {
+	ok, sig, msg := kit.Guard(func() {
 		if err := eng.RunUntil(c25CycleBudget * 1000); err != nil {
 			panic(err)
 		}
